@@ -94,9 +94,9 @@ def r_is_zero(d, tol, scale):
     return None
 
 
-def r_identical(a, b, tol=1e-9):
+def r_identical(a, b, tol=1e-9, scale_min=0.0):
     d = r_diff(a, b)
-    sc = max(1e-300, max(abs(a['value']), abs(b['value'])),
+    sc = max(1e-300, scale_min, max(abs(a['value']), abs(b['value'])),
              max([abs(x) for r in (a, b) for ch in r['chains'].values() for x in ch.values()] + [0.0]))
     return r_is_zero(d, tol, sc)
 
